@@ -379,6 +379,26 @@ def _classes():
         return (type("CachedProbe_" + proto, (leaf, CachedCombineMapper), {}),
                 type("Probe_" + proto, (leaf, CombineMapper), {}))
 
+    # round 7: every handler returns the same value that looks like nothing in Python
+    NIL_VALUES = {"none": None, "zero": 0, "false": False, "empty": ()}
+
+    def nil_pair(val):
+        v = NIL_VALUES[val]
+
+        class _NilLeaf:
+            def combine(self, values):
+                for _ in values:       # (the children are mapped whatever they return)
+                    pass
+                return v
+
+            def map_variable(self, expr, *args, **kwargs):
+                return v
+
+            def map_constant(self, expr, *args, **kwargs):
+                return v
+        return (type("CachedNil_" + val, (_NilLeaf, CachedCombineMapper), {}),
+                type("Nil_" + val, (_NilLeaf, CombineMapper), {}))
+
     def bypass_cse(cls):
         """cls without the CSE result cache: the wrapper is recomputed every time."""
         def map_common_subexpression(self, expr, *args, **kwargs):
@@ -422,6 +442,9 @@ def make_pair(mk, tables):
         return (instrument(C["CachedLeafCount"]), (), instrument(C["LeafCount"]), ())
     if m == "probe":
         cached, plain = C["probe_pair"](mk["eq"])
+        return (instrument(cached), (), instrument(plain), ())
+    if m == "nil":         # round 7: results that look like nothing (None, 0, False, ())
+        cached, plain = C["nil_pair"](mk["val"])
         return (instrument(cached), (), instrument(plain), ())
     if m == "walk":
         return (instrument(C["CachedWalkMapper"]), (), instrument(C["WalkMapper"]), ())
